@@ -869,7 +869,7 @@ fn main() {
     }
 
     // ---- correspondence: kernels ----
-    for i in 0..(if t { 200 } else { 48 }) {
+    for i in 0..(if t { 400 } else { 96 }) {
         let p = rng.usize_in(1, 5);
         let k = match i % 4 {
             0 => Kern::Linear,
@@ -896,7 +896,7 @@ fn main() {
     corr_kernel(&mut out, &Kern::Sigmoid(0.01, 0.1), &vec![1., 2., 3.], &vec![4., 5., 6.]);
 
     // ---- correspondence: SVC traces, whole fits on the recorded orders, fitted models ----
-    for i in 0..(if t { 160 } else { 40 }) {
+    for i in 0..(if t { 400 } else { 110 }) {
         let n = rng.usize_in(4, if i % 3 == 0 { 12 } else { 7 });
         let p = rng.usize_in(1, 3);
         let lattice = i % 4 != 3;
@@ -909,7 +909,7 @@ fn main() {
         corr_svc(&mut out, &mut rng, &k, &x, &y, c, epoch, tol);
     }
     // ---- correspondence: SVR traces, whole fits, fitted models ----
-    for i in 0..(if t { 160 } else { 40 }) {
+    for i in 0..(if t { 400 } else { 110 }) {
         let n = rng.usize_in(4, if i % 3 == 0 { 10 } else { 6 });
         let p = rng.usize_in(1, 3);
         let lattice = i % 4 != 3;
@@ -928,7 +928,7 @@ fn main() {
     // ---- search: SVC, the property's quantifier ----
     let cs = [0.1, 0.5, 1.0, 3.0, 10.0, 100.0];
     let tols = [1e-2, 1e-3, 1e-4];
-    for i in 0..(if t { 1500 } else { 220 }) {
+    for i in 0..(if t { 12000 } else { 1500 }) {
         let n = if i % 5 == 0 { rng.usize_in(40, 80) } else { rng.usize_in(4, 40) };
         let p = rng.usize_in(1, 5);
         let lp = label_pair(&mut rng);
@@ -943,7 +943,7 @@ fn main() {
         }
     }
     // n <= 5 with many repetitions (each fit is one schedule out of n!)
-    for i in 0..(if t { 300 } else { 50 }) {
+    for i in 0..(if t { 2500 } else { 300 }) {
         let n = rng.usize_in(4, 5);
         let p = rng.usize_in(1, 3);
         let lp = label_pair(&mut rng);
@@ -955,7 +955,7 @@ fn main() {
     }
 
     // ---- search: SVR ----
-    for i in 0..(if t { 1200 } else { 200 }) {
+    for i in 0..(if t { 8000 } else { 1200 }) {
         let n = if i % 6 == 0 { rng.usize_in(40, 80) } else { rng.usize_in(4, 40) };
         let p = rng.usize_in(1, 5);
         let (x, y) = gen_regression(&mut rng, n, p, i % 7 == 0);
@@ -976,7 +976,7 @@ fn main() {
     out.set("svr_worst_kkt_excess_over_half_tol", json!(worst));
 
     // ---- search: kernels vs closed forms, symmetry; Gram matrices ----
-    for _ in 0..(if t { 5000 } else { 600 }) {
+    for _ in 0..(if t { 40000 } else { 5000 }) {
         let p = rng.usize_in(1, 6);
         let k = match rng.below(4) {
             0 => Kern::Linear,
@@ -989,7 +989,7 @@ fn main() {
         let vb: Vec<f64> = if rng.chance(0.1) { va.clone() } else { (0..p).map(|_| rng.normal() * scale).collect() };
         check_kernel(&mut out, &k, &va, &vb);
     }
-    for i in 0..(if t { 600 } else { 80 }) {
+    for i in 0..(if t { 3000 } else { 400 }) {
         let n = rng.usize_in(2, if t { 20 } else { 12 });
         let p = rng.usize_in(1, 5);
         let x: Vec<Vec<f64>> = (0..n).map(|_| (0..p).map(|_| rng.uniform(-2.0, 2.0)).collect()).collect();
